@@ -142,6 +142,11 @@ def grouped_val(draw, row, depth, max_members=3, generic="any"):
 def _default_flags_for_known(n):
     n = dict(n)
     if n["k"] == "gen":
+        if n["vendor"] == 0 and refdict.by_key(None, n["code"]) is not None:
+            # the decoder files Vendor-ID 0 under the same key as "no vendor" (RFC 6733 forbids Vendor-ID 0 on the wire;
+            # C02 does not generate it): keep such members out of decoded-from-bytes groups
+            n["vendor"] = 77777
+            n["normalised"] = True
         row = refdict.by_key(n["vendor"], n["code"])
         if row is not None and n["flags"] != row["flags"]:
             n["flags"] = row["flags"]
@@ -172,6 +177,8 @@ gen_data = st.one_of(
 )
 codes = st.one_of(st.integers(0, 2**32 - 1), st.sampled_from([0, 1, 263, 264, 268, 1400, 2**24, 2**32 - 1]))
 vendors = st.one_of(st.sampled_from([1, 10415, 13019, 2**32 - 1]), st.integers(1, 2**32 - 1))
+# C01 only: Vendor-ID 0 with the V flag set is still "V flag agrees with the presence of a Vendor-ID"
+vendors_incl_zero = st.one_of(st.sampled_from([0, 0, 1, 10415, 13019, 2**32 - 1]), st.integers(0, 2**32 - 1))
 
 
 unknown_codes = st.integers(2**24, 2**32 - 1)     # no dictionary class has a code this large
@@ -179,7 +186,7 @@ unknown_codes = st.integers(2**24, 2**32 - 1)     # no dictionary class has a co
 
 @st.composite
 def gen_node(draw, generic="any"):
-    vendor = draw(st.one_of(st.none(), vendors))
+    vendor = draw(st.one_of(st.none(), vendors_incl_zero if generic == "any" else vendors))
     flags = draw(st.integers(0, 127)) | (0x80 if vendor is not None else 0)
     code = draw(codes if generic == "any" else unknown_codes)
     return {"k": "gen", "code": code, "vendor": vendor, "flags": flags, "v": draw(gen_data)}
@@ -353,6 +360,8 @@ def node_features(nodes):
                 names.append(n["cls"])
         if vendor is not None:
             feats.add("vendor")
+            if vendor == 0:
+                feats.add("vendor-id-zero")
         feats.add(f"res{dlen % 4}")
         if dlen % 4:
             feats.add("padded")
